@@ -83,7 +83,43 @@ func c12(tier string) {
 		var prof *lib.ProfileDoc
 		var g *lib.Graph
 		kind := (i/16 + i) % 5 // varies inside every worker (workers take i = k mod 16)
+		if i%23 == 7 {
+			kind = 5 // more results in one level than any batch or buffer size one would pick
+		}
+		if i%11 == 4 {
+			kind = 6 // value constraints over inverse steps: the reported value is a whole node of the input
+		}
 		switch kind {
+		case 5:
+			nT := []int{1023, 1024, 1025, 1100, 2049, 2500}[(i/23)%6]
+			g = lib.NewGraph()
+			for k := 0; k < nT; k++ {
+				nd := g.AddNode(fmt.Sprintf("%smany%d", lib.EX, k), lib.EX+"T")
+				nd.Add(lib.EX+"x", lib.IntV(int64(k)))
+			}
+			prof = &lib.ProfileDoc{Name: fmt.Sprintf("c12-many-%d", i), Prefixes: [][2]string{{"ex", lib.EX}}, Violation: []string{"many"}, Warning: []string{"few"},
+				Validations: []lib.Validation{{Name: "many", TargetClass: "ex.T", Message: "many", Body: lib.PC1("ex.missing", lib.CScalar("minCount", lib.Int(1)))},
+					{Name: "few", TargetClass: "ex.T", Message: "few", Body: lib.PC1("ex.x", lib.CScalar("minInclusive", lib.Int(3)))}}}
+			ctx.Mark("results_in_one_level", fmt.Sprint(nT))
+		case 6:
+			g = lib.NewGraph()
+			whole := g.AddNode(lib.EX+"assembly", lib.EX+"Assembly")
+			whole.Add(lib.EX+"label", lib.StrV("a"))
+			nParts := 1 + r.Intn(4)
+			for k := 0; k < nParts; k++ {
+				pt := g.AddNode(fmt.Sprintf("%spart%d", lib.EX, k), lib.EX+"T")
+				whole.Add(lib.EX+"part", lib.RefV(pt.ID))
+				if r.Intn(2) == 0 {
+					pt.Add(lib.EX+"sibling", lib.RefV(fmt.Sprintf("%spart%d", lib.EX, (k+1)%nParts)))
+				}
+			}
+			vc := []lib.Constraint{lib.CScalar("datatype", lib.Str("xsd.string")), lib.CScalar("pattern", lib.Str("^zzz")), lib.CScalar("minInclusive", lib.Int(5)), lib.CList("in", "u", "v"), lib.CScalar("minLength", lib.Int(3))}
+			prof = &lib.ProfileDoc{Name: fmt.Sprintf("c12-inverse-values-%d", i), Prefixes: [][2]string{{"ex", lib.EX}}}
+			for k, pth := range []string{"ex.part^", "ex.sibling^ | ex.part^", "ex.part^ / ex.part", "ex.sibling"} {
+				name := fmt.Sprintf("inv%d", k)
+				prof.Validations = append(prof.Validations, lib.Validation{Name: name, TargetClass: "ex.T", Message: "value over " + pth, Body: lib.PC1(pth, vc[(k+i)%len(vc)])})
+				prof.Violation = append(prof.Violation, name)
+			}
 		case 4:
 			// a chain of 4..9 nested constraints failing at the innermost level: typed nodes 3 levels per nesting
 			depth := 4 + r.Intn(6)
